@@ -43,11 +43,13 @@ PartSeqN(ts, n, cuts, paths, subs) ==
          ds == [j \in 1..n |-> ts[((r \div Pow(T, j - 1)) % T) + 1]]
      IN Case("part", FilesAt(SegsByCuts(ds, cuts[(q % C) + 1]), paths), {}, {}, subs, {}, "none", FALSE, FALSE, "none", "p")]
 \* files p/templates/{a,b,c}.yaml, lo..hi documents, every cut
-PartSeq(ts, lo, hi) == FlattenSeq([k \in 1..(hi - lo + 1) |-> PartSeqN(ts, lo + k - 1, CutsSeq(lo + k - 1), <<11, 12, 13>>, {})])
+PartSeq(ts, lo, hi) == FlattenSeq([k \in 1..(hi - lo + 1) |-> PartSeqN(ts, lo + k - 1, CutsSeq(lo + k - 1), <<Pa, Pb, Pc>>, {})])
 \* the first file belongs to a subchart (sorts before the parent's files)
-PartSubSeq(ts, lo, hi) == FlattenSeq([k \in 1..(hi - lo + 1) |-> PartSeqN(ts, lo + k - 1, CutsSeq(lo + k - 1), <<3, 11, 12>>, {"s1"})])
+PartSubSeq(ts, lo, hi) == FlattenSeq([k \in 1..(hi - lo + 1) |-> PartSeqN(ts, lo + k - 1, CutsSeq(lo + k - 1), <<S1a, Pa, Pb>>, {"s1"})])
+\* the first two files differ only in letter case (A.yaml sorts before a.yaml)
+PartTwinSeq(ts, lo, hi) == FlattenSeq([k \in 1..(hi - lo + 1) |-> PartSeqN(ts, lo + k - 1, Tail(CutsSeq(lo + k - 1)), <<PA, Pa, Pb>>, {})])
 \* longer sequences in ONE file (no cut)
-OneFileSeq(ts, lo, hi) == FlattenSeq([k \in 1..(hi - lo + 1) |-> PartSeqN(ts, lo + k - 1, <<<<>>>>, <<11, 12, 13>>, {})])
+OneFileSeq(ts, lo, hi) == FlattenSeq([k \in 1..(hi - lo + 1) |-> PartSeqN(ts, lo + k - 1, <<<<>>>>, <<Pa, Pb, Pc>>, {})])
 
 AbsTypesSeq == SetToSeq(LitTypes(AbsCls))
 AllTypesSeq == SetToSeq(LitTypes(AllCls))
@@ -60,25 +62,25 @@ LongDocs(n, a, b) == [i \in 1..n |-> [k |-> LongKinds[((i * a + b) % 4) + 1],
                                       c |-> IF i % 5 = 0 THEN "hook1" ELSE IF i % 7 = 0 THEN "unk" ELSE "plain", g |-> "LIT"]]
 LongCase(n, a, b, nf) ==
   LET ds == LongDocs(n, a, b) IN
-  Case("part", FilesAt(IF nf = 1 THEN <<ds>> ELSE <<SubSeq(ds, 1, n \div 2), SubSeq(ds, (n \div 2) + 1, n)>>, <<11, 12, 13>>),
+  Case("part", FilesAt(IF nf = 1 THEN <<ds>> ELSE <<SubSeq(ds, 1, n \div 2), SubSeq(ds, (n \div 2) + 1, n)>>, <<Pa, Pb, Pc>>),
        {}, {}, {}, {}, "none", FALSE, FALSE, "none", "p")
 LongCases == {LongCase(n, a, b, nf) : n \in {14, 25, 40}, a \in {1, 3}, b \in {0, 1}, nf \in {1, 2}}
 
 (* ----- C05: charts on two levels ------------------------------------------- *)
 
-MainOf(c)    == CASE c = "p" -> 11 [] c = "s1" -> 3 [] OTHER -> 7
-KindOfPath(p) == CASE p = 11 -> "Deployment" [] p = 12 -> "Gadget" [] p = 13 -> "Secret"
-                   [] p = 3 -> "Secret" [] p = 4 -> "Widget" [] OTHER -> "Widget"
+MainOf(c)    == CASE c = "p" -> Pa [] c = "s1" -> S1a [] OTHER -> S2a
+KindOfPath(p) == CASE p \in {Pa, PA} -> "Deployment" [] p = Pb -> "Gadget" [] p = Pc -> "Secret"
+                   [] p \in {S1a, S1A} -> "Secret" [] p = S1b -> "Widget" [] OTHER -> "Widget"
 OneDoc(p, c, g) == [p |-> p, docs |-> <<[k |-> KindOfPath(p), c |-> c, g |-> g]>>]
 
-PartsIn(sb) == {9, 10} \cup (IF "s1" \in sb THEN {2} ELSE {}) \cup (IF "s2" \in sb THEN {6} ELSE {})
-NotesIn(sb) == {8} \cup (IF "s1" \in sb THEN {1} ELSE {}) \cup (IF "s2" \in sb THEN {5} ELSE {})
+PartsIn(sb) == {PH, PZ} \cup (IF "s1" \in sb THEN {S1H} ELSE {}) \cup (IF "s2" \in sb THEN {S2H} ELSE {})
+NotesIn(sb) == {PN} \cup (IF "s1" \in sb THEN {S1N} ELSE {}) \cup (IF "s2" \in sb THEN {S2N} ELSE {})
 
 \* "order" family: everything whose result could depend on a map order -- which charts have NOTES.txt
 \* (x SubNotes), which partials define the same named template, which charts carry CRDs
 OrderCase(sb, pa, no, cr, dc, sn) ==
   LET mains == RanksSeq({MainOf(c) : c \in {"p"} \cup sb}) IN
-  Case("order", [j \in DOMAIN mains |-> OneDoc(mains[j], IF mains[j] = 3 THEN "hook1" ELSE "plain", IF pa = {} THEN "LIT" ELSE "INC")],
+  Case("order", [j \in DOMAIN mains |-> OneDoc(mains[j], IF mains[j] = S1a THEN "hook1" ELSE "plain", IF pa = {} THEN "LIT" ELSE "INC")],
        pa, no, sb, cr, dc, sn, FALSE, "none", "p")
 \* (listing the subcharts in Chart.yaml only matters for the CRD order: varied where both subcharts carry CRDs)
 DeclOpts(cr) == IF {"s1", "s2"} \subseteq cr THEN {"none", "rev"} ELSE {"none"}
@@ -88,29 +90,38 @@ OrderCases ==
                   cr \in SUBSET ({"p"} \cup sb)} :
            sb \in {{}, {"s1"}, {"s1", "s2"}}}
 
+\* "twin" family: template files whose paths differ only in letter case (A.yaml / a.yaml, in the parent and in
+\* the subchart) holding documents of the SAME kind and class, so that only the path order separates them;
+\* NOTES.txt at every depth (templates/NOTES.txt, templates/sub/NOTES.txt, parent and subchart) x SubNotes
+TwinCase(tw, no, cl, sn) ==
+  LET ps == RanksSeq({Pa, S1a} \cup tw) IN
+  Case("order", [j \in DOMAIN ps |-> OneDoc(ps[j], cl, "LIT")], {}, no, {"s1"}, {}, "none", sn, FALSE, "none", "p")
+TwinCases == {TwinCase(tw, no, cl, sn) : tw \in SUBSET {PA, S1A}, no \in SUBSET {PN, PSN, S1N, S1SN},
+                                        cl \in {"plain", "hook1"}, sn \in BOOLEAN}
+
 \* "prog" family: up to n template files in parent and subchart, each computing its payload with one
 \* program (values, include / tpl nesting depth 2, Files.Get / Glob, files outside the chart, DNS, state
 \* written by one file and read by another of the same chart or of the parent, mutation of a default list, fail);
 \* the named templates are defined twice (parent and subchart partial)
 ProgsP == {"LIT", "VAL", "INC", "INC2", "TPL", "TPL2", "FGET", "FGLOB", "FOUT", "DNS", "SET", "GET", "GETS", "MUT", "FAIL"}
 \* GETS reads the subchart's state through .Values.s1: only meaningful in a file of the parent
-ProgOK(asg) == \A p \in DOMAIN asg : asg[p] = "GETS" => p \in {11, 12}
+ProgOK(asg) == \A p \in DOMAIN asg : asg[p] = "GETS" => p \in {Pa, Pb}
 ProgCase(asg, pa, dns) ==
   LET ps == RanksSeq(DOMAIN asg) IN
-  Case("prog", [j \in DOMAIN ps |-> OneDoc(ps[j], "plain", asg[ps[j]])], pa, {8}, {"s1"}, {}, "none", FALSE, dns, "none", "p")
+  Case("prog", [j \in DOMAIN ps |-> OneDoc(ps[j], "plain", asg[ps[j]])], pa, {PN}, {"s1"}, {}, "none", FALSE, dns, "none", "p")
 ProgCases(n) ==
-  LET A == {a \in UNION {[S -> ProgsP] : S \in {T \in SUBSET {3, 4, 11, 12} : Cardinality(T) \in 1..n}} : ProgOK(a)} IN
-  {ProgCase(asg, {2, 9}, FALSE) : asg \in A}
-  \cup {ProgCase(asg, {2, 9}, TRUE) : asg \in {a \in A : "DNS" \in Range(a) /\ Cardinality(DOMAIN a) <= 2}}
+  LET A == {a \in UNION {[S -> ProgsP] : S \in {T \in SUBSET {S1a, S1b, Pa, Pb} : Cardinality(T) \in 1..n}} : ProgOK(a)} IN
+  {ProgCase(asg, {S1H, PH}, FALSE) : asg \in A}
+  \cup {ProgCase(asg, {S1H, PH}, TRUE) : asg \in {a \in A : "DNS" \in Range(a) /\ Cardinality(DOMAIN a) <= 2}}
 
 \* functions that must not exist (parse error), and a call of an undefined named template (exec error)
 ErrCases ==
-  {ProgCase(asg, {2, 9}, FALSE) : asg \in {a \in [{3, 11} -> {"LIT", "INC", "ENV", "EXPANDENV"}] : Range(a) \cap ErrProgs # {}}}
-  \cup {ProgCase(asg, {}, FALSE) : asg \in [{3, 11} -> {"LIT", "INC"}] \cup [{11} -> {"TPL2", "LIT"}]}
+  {ProgCase(asg, {S1H, PH}, FALSE) : asg \in {a \in [{S1a, Pa} -> {"LIT", "INC", "ENV", "EXPANDENV"}] : Range(a) \cap ErrProgs # {}}}
+  \cup {ProgCase(asg, {}, FALSE) : asg \in [{S1a, Pa} -> {"LIT", "INC"}] \cup [{Pa} -> {"TPL2", "LIT"}]}
 
 \* "schema" family: values.schema.json of the parent / the subchart with a "$ref" in each URL form
 SchemaCases ==
-  {Case("schema", <<OneDoc(3, "plain", "LIT"), OneDoc(11, "plain", "LIT")>>, {}, {8}, {"s1"}, {}, "none", FALSE, FALSE, r, at) :
+  {Case("schema", <<OneDoc(S1a, "plain", "LIT"), OneDoc(Pa, "plain", "LIT")>>, {}, {PN}, {"s1"}, {}, "none", FALSE, FALSE, r, at) :
      r \in {"local", "rel", "file", "http"}, at \in {"p", "s1"}}
 
 NPaths(c) == Len(c.files) + Len(c.parts) + Len(c.notes)
@@ -119,17 +130,17 @@ NPaths(c) == Len(c.files) + Len(c.parts) + Len(c.notes)
 
 \* C05: charts on two levels. State-machine exploration (MC_Render) is limited by the number of
 \* template paths (permutations per map walk); the reference function F is evaluated on all of them.
-C05All(n)     == OrderCases \cup ProgCases(n) \cup ErrCases \cup SchemaCases
-C05Machine(m, n) == {c \in OrderCases : NPaths(c) <= m} \cup ProgCases(n) \cup ErrCases \cup SchemaCases
+C05All(n)     == OrderCases \cup TwinCases \cup ProgCases(n) \cup ErrCases \cup SchemaCases
+C05Machine(m, n) == {c \in OrderCases \cup TwinCases : NPaths(c) <= m} \cup ProgCases(n) \cup ErrCases \cup SchemaCases
 \* inputs on which the strict determinism invariants are checked to SHOW where the model is not a function
 StrictInputs  == {c \in OrderCases : NPaths(c) <= 4} \cup SchemaCases
 
 \* C08: all document sequences over kind x class (one flavour per class) in up to three files,
 \* and every flavour incl. blank / comment-only documents for up to two documents
 C08Seq(n, m, one) ==
-  PartSeq(AbsTypesSeq, 1, n) \o PartSubSeq(AbsTypesSeq, 1, m) \o OneFileSeq(AbsTypesSeq, n + 1, one)
+  PartSeq(AbsTypesSeq, 1, n) \o PartSubSeq(AbsTypesSeq, 1, m) \o PartTwinSeq(AbsTypesSeq, 2, 3) \o OneFileSeq(AbsTypesSeq, n + 1, one)
   \o SelectSeq(PartSeq(AllTypesSeq, 1, 2), HasFlavour) \o SetToSeq(LongCases)
-C08MachineSeq(n) == PartSeq(AbsTypesSeq, 1, n) \o SelectSeq(PartSeq(AllTypesSeq, 1, 2), HasFlavour)
+C08MachineSeq(n) == PartSeq(AbsTypesSeq, 1, n) \o PartTwinSeq(AbsTypesSeq, 2, 2) \o SelectSeq(PartSeq(AllTypesSeq, 1, 2), HasFlavour)
 
 (* ----- export ---------------------------------------------------------------- *)
 
